@@ -50,6 +50,8 @@ def dotted(t):
 
 
 BLOCK_KINDS = ["def", "class", "if", "if_else", "try", "for_else", "while_else", "with", "async_def"]
+# one-line spellings: the import does not start a physical line ("if x: import a", "x = 1; import a", ...)
+INLINE_KINDS = ["if_inline", "def_inline", "class_inline", "for_inline", "while_inline", "with_inline", "semi"]
 
 
 def gen_import_stmt(rng, f, mods, externals=()):
@@ -95,8 +97,11 @@ def gen_imports(rng, dirs, files, externals=(), nested=True, per_file=4):
         if not v["py"]:
             continue
         body = []
+        all_inline = nested and rng.random() < 0.12     # a file in which no import statement starts a line
         for _ in range(rng.randint(0, per_file)):
             s = gen_import_stmt(rng, f, mods, externals)
+            if nested and (all_inline or rng.random() < 0.12):
+                s = ("block", rng.choice(INLINE_KINDS), [s])
             depth = rng.choice([0, 0, 1, 2]) if nested else 0
             for _ in range(depth):
                 s = ("block", rng.choice(BLOCK_KINDS), [s] + ([("other",)] if rng.random() < 0.3 else []))
@@ -118,6 +123,11 @@ def render_stmt(s, ind=0):
     if s[0] == "other":
         return [pad + "x = 1"]
     _, kind, children = s
+    if kind in INLINE_KINDS:
+        one = render_stmt(children[0], 0)[0]
+        head = {"if_inline": "if x: ", "def_inline": "def f(): ", "class_inline": "class K: ", "for_inline": "for i in range(3): ",
+                "while_inline": "while x: ", "with_inline": "with open('f') as fh: ", "semi": "x = 1; "}[kind]
+        return [pad + head + one]
     inner = []
     for c in children:
         inner.extend(render_stmt(c, ind + 1))
@@ -170,11 +180,30 @@ def materialise(dirs, files, sources=None):
     return base
 
 
+_SPELLING = [0]
+
+
+def spell_paths(root_path: str, module_path: str):
+    """Equivalent spellings of the two path arguments, rotated deterministically: plain strings, a trailing separator on
+    module_path, pathlib.Path objects, trailing separators on both."""
+    import pathlib
+    _SPELLING[0] += 1
+    k = _SPELLING[0] % 6
+    if k == 1:
+        return root_path, module_path + os.sep
+    if k == 3:
+        return pathlib.Path(root_path), pathlib.Path(module_path)
+    if k == 5:
+        return root_path + os.sep, module_path + os.sep
+    return root_path, module_path
+
+
 def real_scan(base, root, mp, **kw):
     """-> ('OK', modules, edges) | ('ERR', type name)."""
     from pytestarch import get_evaluable_architecture
     try:
-        arch = get_evaluable_architecture(os.path.join(base, root), os.path.join(base, *mp), **kw)
+        rp, mpp = spell_paths(os.path.join(base, root), os.path.join(base, *mp))
+        arch = get_evaluable_architecture(rp, mpp, **kw)
     except Exception as e:  # noqa: BLE001
         return ("ERR", type(e).__name__ + ": " + str(e)[:200], None)
     ns, es = rules.observe(arch, [], [])
